@@ -388,3 +388,10 @@ def run(src, rep, counts):
         else:
             rep.ob(rule, f.where(), f.scope, group, True)
     counts["scenarios"] = n
+    kinds = {}
+    for job, res in zip(jobs, results):
+        if res is not None and res[0] == "done":
+            continue
+        k = job[0] if job[0] not in ("body", "window") else "%s%s" % (job[0], " with a crash point" if job[-1] else "")
+        kinds[k] = kinds.get(k, 0) + 1
+    counts["scenarios_by_kind"] = kinds
